@@ -325,6 +325,21 @@ def hand_call_loop(x: fp.Real, y: fp.Real, xs: list[fp.Real], k: fp.Real):
             w = w + y
             i = i + 1
     return (a, u, b)''',
+    'hand_callee_writes': '''@fp.fpy
+def hand_cw_put(zs: list[fp.Real], a: fp.Real) -> fp.Real:
+    with fp.REAL:
+        zs[0] = a * 0.1
+    return a
+
+@fp.fpy
+def hand_callee_writes(x: fp.Real, y: fp.Real, xs: list[fp.Real], k: fp.Real):
+    us = [x, y]
+    t = hand_cw_put(us, k)
+    a = us[0]
+    acc = t
+    for e in us:
+        acc = e
+    return (a, acc)''',
     'hand_abs': '''@fp.fpy
 def hand_abs(x: fp.Real, y: fp.Real, xs: list[fp.Real], k: fp.Real):
     a = abs(x)
@@ -459,6 +474,7 @@ def record_traces14(job):
             cand += [(n, f, HAND[n]) for n, f in hf.items()]
         prof = dict(PROFILES[k % len(PROFILES)])
         prof['calls'] = 0.15
+        prof['helper_kinds'] = ['rr']       # callees that store into a list argument are the known finding of hand_callee_writes
         srcs, funcs, rej = progrun.generate_and_load(seed * 43 + k, 6 if tier == 'quick' else 30, prof, work, f'c14t_{k}_')
         cand += [(n, f, srcs[n]) for n, f in funcs.items()]
         for (name, f, src) in cand:
@@ -548,6 +564,8 @@ def run(tier: str) -> int:
         if clause == 'inferred-format-misses-value':
             # sum([x]) is x itself, unrounded (derived semantics); the analysis gives sum(xs) the scope's format
             key['sum_in_program'] = 'sum(' in p['src']
+            if 'def hand_callee_writes(' in p['src']:
+                key['program'] = 'hand_callee_writes'
         rep.mismatch(key,
                      {'program': p['src'], 'config': p['cfgsrc'], 'input': p['inputs'][idx - 1], 'clause': clause, 'where': what,
                       'bound': [(s['t'].get('n') if s['k'] == 'Assign' else 'return', s['fmt'])
@@ -576,6 +594,8 @@ def run(tier: str) -> int:
                 key['neg_or_mul'] = any(t in p['src'] for t in ('-', '*', 'fma'))
             if clause == 'inferred-format-misses-value':
                 key['sum_in_program'] = 'sum(' in p['src']
+                if 'def hand_callee_writes(' in p['src']:
+                    key['program'] = 'hand_callee_writes'
             rep.mismatch(key, {'program': p['src'], 'config': p['cfgsrc'], 'args': r_['args'], 'clause': clause, 'where': what,
                                'observed_by': 'statement trace of the real interpreter (sys.settrace)'})
     rep.cov['statement_traces'] = len(truns)
